@@ -365,6 +365,46 @@ def r4_r6_merge_table(ctx, sym, model):
             got, want = model.resolve(list(seq)), model.oracle(list(seq))
             if not isinstance(got, tuple) and got['label'] != want['label']:
                 mism.append(('quad', tuple(c['label'] for c in seq), got['label'], want['label']))
+    # writer/reader agreement: the tables are built by Report.suppress itself (executed abstractly); suppressing
+    # exactly a feedback's own category / label / fields must suppress that feedback, and nothing else
+    rmod = ctx.repo.module(REPORT)
+    suppress_fn = rmod.func('Report.suppress')
+    ctx.analysed_function(rmod, suppress_fn)
+    from ..fdeval import FD as _FD, Obj as _Obj, Raised as _Raised, Inconclusive as _Inc, module_resolver as _mr
+    for label in ('KeyError', 'keyerror', 'Mixed_Case_label'):
+        for cat_arg, fb_cat in ((None, 'runtime'), ('runtime', 'runtime'), ('Runtime', 'runtime'),
+                                ('runtime', 'Runtime'), ('RUNTIME', 'runtime')):
+            for fields_arg in (None, {'k': 1}):
+                rep = _Obj('Report', suppressions={}, suppressed_labels={})
+                rep.attrs['__classdef__'] = rmod.cls('Report')
+                fd0 = _FD(max_steps=100000, resolver=_mr(sym, rmod))
+                fd0.calls['isinstance'] = lambda o, t: isinstance(o, t) if isinstance(t, (type, tuple)) else False
+                kwargs = {'label': label}
+                if cat_arg is not None:
+                    kwargs['category'] = cat_arg
+                if fields_arg is not None:
+                    kwargs['fields'] = dict(fields_arg)
+                try:
+                    fd0.call_function(suppress_fn, [], kwargs, bound_self=rep)
+                except _Raised as e:
+                    ctx.fail('R6', 'suppress:raises:%s' % e.kind, rmod, suppress_fn,
+                             "suppress(%r) raises %s" % (kwargs, e.kind), "suppress(**%r)" % kwargs)
+                    continue
+                except _Inc as e:
+                    raise AnalysisError("C01 R4: Report.suppress outside the decidable fragment: %s" % e)
+                s_, sl_ = rep.attrs['suppressions'], rep.attrs['suppressed_labels']
+                target = dict(category=fb_cat, label=label, triggered=True, fields={'k': 1, 'z': 2})
+                bystander = dict(category=fb_cat, label='other_label', triggered=True, fields={'k': 1})
+                for cfgs, want_label, what in (([target], model.default_label, 'is still delivered'),
+                                               ([target, bystander], 'other_label', 'hides the wrong feedback')):
+                    n += 1
+                    got = model.resolve(cfgs, s_, sl_)
+                    if isinstance(got, tuple):
+                        raised.setdefault((got[1], got[2]), []).append(('suppress(%r)' % kwargs, target))
+                    elif got['label'] != want_label:
+                        mism.append(('suppress-writer/reader', 'suppress(%s) then a %s/%s feedback with fields %r' % (
+                            ', '.join('%s=%r' % kv for kv in kwargs.items()), fb_cat, label, target['fields']),
+                                     got['label'], want_label))
     # category None / empty cases (never raises)
     for cfg in (dict(category=None, label='N', triggered=True), dict(category=None, label='N', triggered=False),
                 dict(category='Runtime', label='N', triggered=True)):
